@@ -142,20 +142,18 @@ Proof.
   - destruct (Z.ltb_spec n 2); [reflexivity|lia].
 Qed.
 
-Lemma reject_unknown_rule : forall pw x y xr yr m fi ridx r, resolve_fixed x xr m = Ok (fi, ridx) ->
-  match_ref pw x y xr yr m r UnknownRule = Raise ValueError /\
-  ((2 <= length fi)%nat -> (2 <= length ridx)%nat -> match_ref pw x y xr yr m UnknownRule Rectangle = Raise ValueError).
+Lemma reject_unknown_rule : forall pw x y xr yr m r,
+  match_ref pw x y xr yr m UnknownRule r = Raise ValueError /\
+  (forall fi ridx, resolve_fixed x xr m = Ok (fi, ridx) -> match_ref pw x y xr yr m r UnknownRule = Raise ValueError).
 Proof.
-  intros pw x y xr yr m fi ridx r H. unfold match_ref. rewrite H. cbn [bind integral fst snd].
-  split; [reflexivity|]. intros Hfi Hri.
-  destruct ridx as [|i [|j ridx]]; cbn [length] in Hri; try lia.
-  destruct fi as [|a [|b fi]]; cbn [length] in Hfi; try lia.
-  reflexivity.
+  intros pw x y xr yr m r. split; [reflexivity|].
+  intros fi ridx H. unfold match_ref. rewrite H. cbn [bind integral fst snd].
+  destruct r; reflexivity.
 Qed.
 
 Lemma reject_unknown_strategy : forall pw x y xr yr rt rr,
   match_ref pw x y xr yr (ByStrategy UnknownStrategy) rt rr = Raise ValueError.
-Proof. intros. reflexivity. Qed.
+Proof. intros. destruct rt; reflexivity. Qed.
 
 Lemma reject_unknown_method : forall s n g,
   step s (OInterpN n (IOwn MUnknown)) = (s, Raise ValueError) /\
